@@ -1515,6 +1515,13 @@ func FunExpr(query *Query, current Map, expr *sqlparser.FuncExpr, opts ...ExprOp
 			if e != nil {
 				return nil, e
 			}
+			// nothing waits for a SPIN call: it outlives the evaluation, which goes
+			// on to finish the rows (takes the `<-` marker out, fills ASYNC slots).
+			// The call gets copies of its own
+			for i := range slice {
+				slice[i] = detached(slice[i])
+			}
+			current := detached(current).(Map)
 			go func() {
 				_, err := callFunction(function, query, current, slice)
 				if err != nil {
@@ -2131,6 +2138,29 @@ func (query *Query) setAggregate(key string, value any) {
 		query.aggregates = make(map[string]any)
 	}
 	query.aggregates[key] = value
+}
+
+// detached copies the objects and arrays of a value, down to the scalars, for
+// a call that keeps running after the rows it was handed are finished by others.
+// The back-reference of a row is not part of what a function is given
+func detached(value any) any {
+	switch value := value.(type) {
+	case Map:
+		out := make(Map, len(value))
+		for key, entry := range value {
+			if key != "<-" {
+				out[key] = detached(entry)
+			}
+		}
+		return out
+	case []any:
+		out := make([]any, len(value))
+		for i, entry := range value {
+			out[i] = detached(entry)
+		}
+		return out
+	}
+	return value
 }
 
 // callFunction invokes a user function on a goroutine of its own (ASYNC, SPIN,
